@@ -388,7 +388,7 @@ theorem readAttr_span (a : SAttr) (W : Bytes) (d : Nat) (t : Tokenizer) (ok : Ok
       have v := readTagAttrVal_span a.val [] a.ws2 W d (readTagAttrKey t) ak.ok k.2 hval hn f hopen (by simp) hw2
         ((hrest.congr ak.buf).at k.1)
       have := fin _ ks.1 ks.2.1 ks.2.2 v.1 (by rw [v.2])
-      refine ⟨_, this.1, fun _ => by rw [k.1]; simp only [List.length_nil]; omega, by rw [k.1]; omega, ?_, this.2⟩
+      refine ⟨_, this.1, fun _ => by rw [k.1], by rw [k.1]; omega, ?_, this.2⟩
       rw [k.1]; simp only [List.length_append, List.length_cons, List.length_nil]; omega
     | cons w w1' =>
       rw [hws1] at h
@@ -404,6 +404,377 @@ theorem readAttr_span (a : SAttr) (W : Bytes) (d : Nat) (t : Tokenizer) (ok : Ok
       have := fin _ ks.1 ks.2.1 ks.2.2 v.1 (by rw [v.2])
       refine ⟨_, this.1, fun _ => by rw [k.1]; simp only [List.length_cons]; omega, by rw [k.1]; omega, ?_, this.2⟩
       rw [k.1]; simp only [List.length_append, List.length_cons, List.length_nil]; omega
+
+/-! ### the attribute loop -/
+
+/-- two lists related elementwise (core Lean has no `Forall₂`) -/
+inductive All2 {α β : Type} (R : α → β → Prop) : List α → List β → Prop
+  | nil : All2 R [] []
+  | cons {a b as bs} : R a b → All2 R as bs → All2 R (a :: as) (b :: bs)
+
+theorem All2.imp {α β : Type} {R S : α → β → Prop} (h : ∀ a b, R a b → S a b) :
+    ∀ {l1 : List α} {l2 : List β}, All2 R l1 l2 → All2 S l1 l2
+  | _, _, .nil => .nil
+  | _, _, .cons r rs => .cons (h _ _ r) (All2.imp h rs)
+
+theorem All2.length {α β : Type} {R : α → β → Prop} : ∀ {l1 : List α} {l2 : List β}, All2 R l1 l2 → l1.length = l2.length
+  | _, _, .nil => rfl
+  | _, _, .cons _ rs => by simp [All2.length rs]
+
+theorem All2.get {α β : Type} {R : α → β → Prop} : ∀ {l1 : List α} {l2 : List β}, All2 R l1 l2 →
+    ∀ (i : Nat) (h1 : i < l1.length) (h2 : i < l2.length), R l1[i] l2[i]
+  | _, _, .nil, i, h1, _ => absurd h1 (Nat.not_lt_zero _)
+  | _, _, .cons r rs, 0, _, _ => r
+  | _, _, .cons r rs, i + 1, h1, h2 => All2.get rs i (by simpa using h1) (by simpa using h2)
+
+/-- a saved span is the attribute: key span = the key, value span = the value without quotes -/
+def spanOK (t : Tokenizer) (s : AttrSpan) (a : SAttr) : Prop :=
+  Has t s.ks a.key ∧ s.ke = s.ks + a.key.length ∧ Has t s.vs a.val.value ∧ s.ve = s.vs + a.val.value.length
+
+theorem spanOK.congr {t t' : Tokenizer} {s : AttrSpan} {a : SAttr} (h : spanOK t s a) (e : t'.buf = t.buf) :
+    spanOK t' s a := ⟨h.1.congr e, h.2.1, h.2.2.1.congr e, h.2.2.2⟩
+
+theorem SVal.body_split (v : SVal) : ∃ pre post, v.body = pre ++ v.value ++ post ∧ pre.length = v.qoff := by
+  cases v with
+  | none => exact ⟨[], [], rfl, rfl⟩
+  | unq v => exact ⟨[], [], by simp [SVal.body, SVal.value], rfl⟩
+  | dq v => exact ⟨[34], [34], rfl, rfl⟩
+  | sq v => exact ⟨[39], [39], rfl, rfl⟩
+
+/-- the span returned by `readAttr_span` is the attribute -/
+theorem spanOK_of (a : SAttr) (t : Tokenizer) (rest : Bytes) (vs : Nat) (h : Has t t.rawE (a.key ++ a.vtext ++ rest))
+    (hvs : a.val ≠ .none → vs = t.rawE + a.key.length + (a.ws1.length + 1 + a.ws2.length) + a.val.qoff) :
+    spanOK t ⟨t.rawE, t.rawE + a.key.length, vs, vs + a.val.value.length⟩ a := by
+  refine ⟨h.left.left, rfl, ?_, rfl⟩
+  by_cases hn : a.val = .none
+  · rw [hn]; exact Has.nil _ _
+  · obtain ⟨pre, post, hb, hp⟩ := a.val.body_split
+    have h1 : Has t (t.rawE + a.key.length) a.vtext := h.left.right
+    rw [SAttr.vtext_some hn, hb] at h1
+    have h2 : Has t (t.rawE + a.key.length) ((a.ws1 ++ [61] ++ a.ws2 ++ pre) ++ (a.val.value ++ post)) := by
+      simpa [List.append_assoc] using h1
+    have h3 := h2.right.left
+    exact h3.at (by rw [hvs hn]; simp only [List.length_append, List.length_cons, List.length_nil, hp]; omega)
+
+theorem tagAttrsGo_span : ∀ (as : List SAttr) (trail : Bytes) (e : TagEnd) (t : Tokenizer), Ok t →
+    t.err = false → (∀ a ∈ as, a.ok = true) → (∀ b ∈ trail, isWs b = true) → endOK as trail e = true →
+    Has t t.rawE (loopText as trail e) →
+    ∃ spans : List AttrSpan, (tagAttrsGo t true).attrs = t.attrs ++ spans.toArray ∧
+      All2 (spanOK t) spans as ∧ (tagAttrsGo t true).nAttrRet = t.nAttrRet
+  | [], trail, .gt, t, ok, he, _, _, _, h => by
+    obtain ⟨e1, e2, e3, e4⟩ := read_known (h.head) he
+    rw [tagAttrsGo]
+    simp only [e3, e1, beq_self_eq_true, Bool.or_true, if_true]
+    exact ⟨[], by simp, All2.nil, by simp⟩
+  | [], trail, .slashGt, t, ok, he, _, _, _, h => by
+    -- the `/` is read as an EMPTY attribute key (not saved), then the `>` ends the loop
+    obtain ⟨e1, e2, e3, e4⟩ := read_known (h.head) he
+    have hne : ¬ t.readByte.1.err = true := by rw [e3]; exact Bool.false_ne_true
+    have a0 := read_unread_adv ok hne
+    have p := peek_run h.head he
+    have hh : Has (t.readByte.1.unread 1) (t.readByte.1.unread 1).rawE ([] ++ [] ++ [47] ++ [62]) := by
+      have : Has t t.rawE ([47, 62]) := h
+      exact (this.congr a0.buf).at (by rw [p.1.1]; simp)
+    have hkey := readTagAttrKey_run_eat [] 47 (t.readByte.1.unread 1) (by simpa using hh.left) (by simp) (Or.inr rfl) p.1.2
+    have hks := readTagAttrKey_span [] 47 (t.readByte.1.unread 1) (by simpa using hh.left) (by simp)
+      (Or.inr (Or.inr rfl)) p.1.2
+    have ak := readTagAttrKey_adv _ a0.ok
+    have hv := readTagAttrVal_run_none [] 62 (t.readByte.1.unread 1).readTagAttrKey ak.ok
+      (by have := (hh.right).congr ak.buf; exact this.at (by rw [hkey.1]; simp)) ⟨by simp, by decide, by decide⟩ hkey.2
+    have av := readTagAttrVal_adv _ ak.ok
+    have vf := (readTagAttrVal_spec (t.readByte.1.unread 1).readTagAttrKey ak.ok).1
+    simp only [valF, Prod.mk.injEq] at vf
+    have kf := readTagAttrKey_keep (t.readByte.1.unread 1)
+    -- nothing is pushed
+    have hra : Stops (t.readByte.1.unread 1) ((t.readByte.1.unread 1).readAttr true) 1 ∧
+        ((t.readByte.1.unread 1).readAttr true).attrs = t.attrs ∧
+        ((t.readByte.1.unread 1).readAttr true).nAttrRet = t.nAttrRet := by
+      unfold readAttr
+      simp only
+      have hno : ¬ (true && (t.readByte.1.unread 1).readTagAttrKey.readTagAttrVal.pkS !=
+          (t.readByte.1.unread 1).readTagAttrKey.readTagAttrVal.pkE) = true := by
+        rw [vf.2.2.2.2.1, vf.2.2.2.2.2, hks.1, hks.2.1]; simp
+      rw [if_neg hno]
+      have sk := skipWhiteSpace_run [] 62 (t.readByte.1.unread 1).readTagAttrKey.readTagAttrVal (by
+        have := (hh.right).congr (av.buf.trans ak.buf)
+        exact this.at (by rw [hv.1, hkey.1]; simp)) (by simp) (by decide) hv.2
+      have fr := skipWhiteSpace_frame (t.readByte.1.unread 1).readTagAttrKey.readTagAttrVal
+      exact ⟨⟨by rw [sk.1, hv.1, hkey.1]; simp, sk.2⟩, by rw [fr.2.2.1, vf.2.2.1, kf.1]; simp,
+        by rw [fr.2.2.2.1, vf.2.2.2.1, kf.2]; simp⟩
+    have a1 := readAttr_adv (t.readByte.1.unread 1) true a0.ok
+    rw [tagAttrsGo]
+    have hc : ¬ (t.readByte.1.err || t.readByte.2 == 62) = true := by rw [e3, e1]; decide
+    rw [if_neg hc]
+    simp only
+    have hne1 : ¬ ((t.readByte.1.unread 1).readAttr true).err = true := by rw [hra.1.2]; exact Bool.false_ne_true
+    rw [if_neg hne1]
+    have hprog : ((t.readByte.1.unread 1).readAttr true).buf.size - ((t.readByte.1.unread 1).readAttr true).rawE <
+        t.buf.size - t.rawE := by
+      have := a1.ok.le
+      rw [(a0.trans a1).buf] at this ⊢
+      rw [hra.1.1, p.1.1] at this ⊢
+      omega
+    rw [dif_pos hprog]
+    have h2 : ((t.readByte.1.unread 1).readAttr true).buf[((t.readByte.1.unread 1).readAttr true).rawE]? = some 62 := by
+      rw [(a0.trans a1).buf, hra.1.1, p.1.1]
+      have := (Has.tail (a := 47) (l := [62]) h).head
+      simpa using this
+    obtain ⟨f1, f2, f3, f4⟩ := read_known h2 hra.1.2
+    rw [tagAttrsGo]
+    simp only [f3, f1, beq_self_eq_true, Bool.or_true, if_true]
+    exact ⟨[], by simp [hra.2.1], All2.nil, by simp [hra.2.2]⟩
+  | a :: rest, trail, e, t, ok, he, hok, htr, hend, h => by
+    have ha := hok a (by simp)
+    obtain ⟨_, _, hkne, hk, hval, _, _, _⟩ := SAttr.ok_spec ha
+    obtain ⟨W, L, hW, hLT, hlen, hcont⟩ : ∃ (W L : Bytes), (∀ b ∈ W, isWs b = true) ∧
+        loopText (a :: rest) trail e = a.key ++ a.vtext ++ W ++ L ∧
+        (loopText (a :: rest) trail e).length = a.key.length + a.vtext.length + W.length + L.length ∧
+        ((rest = [] ∧ W = trail ∧ L = e.text) ∨
+         (∃ b rest', rest = b :: rest' ∧ W = b.ws ∧ L = loopText rest trail e)) := by
+      cases rest with
+      | nil => exact ⟨trail, e.text, htr, by simp [loopText, List.append_assoc], by simp [loopText]; omega, Or.inl ⟨rfl, rfl, rfl⟩⟩
+      | cons b rest' =>
+        have hb := SAttr.ok_spec (hok b (by simp))
+        exact ⟨b.ws, loopText (b :: rest') trail e, hb.2.1, by simp [loopText, List.append_assoc],
+          by simp [loopText]; omega, Or.inr ⟨b, rest', rfl, rfl, rfl⟩⟩
+    obtain ⟨d, L', hL, hdws, hd61⟩ : ∃ d L', L = d :: L' ∧ isWs d = false ∧ d ≠ 61 := by
+      rcases hcont with ⟨_, _, rfl⟩ | ⟨b, rest', hr, _, rfl⟩
+      · cases e <;> exact ⟨_, _, rfl, by decide, by decide⟩
+      · exact loopText_head_nws rest trail e (fun x hx => hok x (by simp [hx]))
+    have hopen : a.val.open = true → W = [] → d = 62 := by
+      intro ho hw
+      rcases hcont with ⟨hr, hWt, hLe⟩ | ⟨b, rest', hr, hWb, _⟩
+      · subst hr
+        cases e with
+        | gt => simp only [TagEnd.text] at hLe; rw [hLe] at hL; injection hL with h1 _; exact h1.symm
+        | slashGt =>
+          exfalso
+          simp only [endOK, List.getLast?_singleton, Bool.or_eq_true, Bool.not_eq_true'] at hend
+          rcases hend with h1 | h1
+          · rw [ho] at h1; cases h1
+          · rw [← hWt, hw] at h1; simp at h1
+      · exfalso
+        have hb := SAttr.ok_spec (hok b (by rw [hr]; simp))
+        exact hb.1 (by rw [← hWb, hw])
+    cases hkey : a.key with
+    | nil => exact absurd hkey hkne
+    | cons c kr =>
+      have hc := hk c (by rw [hkey]; simp)
+      have hc62 : c ≠ 62 := by
+        simp only [keyByte, Bool.and_eq_true, Bool.not_eq_true', bne_iff_ne, ne_eq] at hc; exact hc.2
+      have hhead : t.buf[t.rawE]? = some c := by
+        have : Has t t.rawE (c :: (kr ++ a.vtext ++ W ++ L)) := by
+          rw [hLT, hkey] at h; simpa [List.append_assoc] using h
+        exact this.head
+      obtain ⟨e1, e2, e3, e4⟩ := read_known hhead he
+      have hne : ¬ t.readByte.1.err = true := by rw [e3]; exact Bool.false_ne_true
+      have a0 := read_unread_adv ok hne
+      have p := peek_run hhead he
+      have hit : Has (t.readByte.1.unread 1) (t.readByte.1.unread 1).rawE (a.key ++ a.vtext ++ W ++ [d]) := by
+        have h1 : Has t t.rawE ((a.key ++ a.vtext ++ W ++ [d]) ++ L') := by
+          rw [hLT, hL] at h; simpa [List.append_assoc] using h
+        exact (h1.left.congr a0.buf).at (by rw [p.1.1]; simp)
+      have hra := readAttr_run a W d (t.readByte.1.unread 1) true a0.ok p.1.2 ha ⟨hW, hdws, hd61⟩ hopen hit
+      obtain ⟨vs, sp1, sp2, _, _, sp5⟩ := readAttr_span a W d (t.readByte.1.unread 1) a0.ok p.1.2 ha ⟨hW, hdws, hd61⟩ hopen hit
+      have a1 := readAttr_adv (t.readByte.1.unread 1) true a0.ok
+      rw [tagAttrsGo]
+      have hcnd : ¬ (t.readByte.1.err || t.readByte.2 == 62) = true := by
+        rw [e3, e1]; simpa using hc62
+      rw [if_neg hcnd]
+      simp only
+      have hne1 : ¬ ((t.readByte.1.unread 1).readAttr true).err = true := by rw [hra.2]; exact Bool.false_ne_true
+      rw [if_neg hne1]
+      have hklen : 0 < a.key.length := by rw [hkey]; simp
+      have hprog : ((t.readByte.1.unread 1).readAttr true).buf.size - ((t.readByte.1.unread 1).readAttr true).rawE <
+          t.buf.size - t.rawE := by
+        have := a1.ok.le
+        rw [(a0.trans a1).buf] at this ⊢
+        rw [hra.1, p.1.1] at this ⊢
+        omega
+      rw [dif_pos hprog]
+      have hrawE : ((t.readByte.1.unread 1).readAttr true).rawE =
+          t.rawE + (a.key.length + a.vtext.length + W.length) := by rw [hra.1, p.1.1]; omega
+      have hLhas : Has ((t.readByte.1.unread 1).readAttr true) ((t.readByte.1.unread 1).readAttr true).rawE L := by
+        have h1 : Has t t.rawE ((a.key ++ a.vtext ++ W) ++ L) := by rw [hLT] at h; exact h
+        have := h1.right
+        simp only [List.length_append] at this
+        exact (this.congr (a0.trans a1).buf).at hrawE
+      have hLrest : L = loopText rest trail e := by
+        rcases hcont with ⟨hr, _, hLe⟩ | ⟨b, rest', hr, _, hLl⟩
+        · rw [hr, hLe]; rfl
+        · exact hLl
+      have hendr : endOK rest trail e = true := by
+        rcases hcont with ⟨hr, _, _⟩ | ⟨b, rest', hr, _, _⟩
+        · rw [hr]; cases e <;> rfl
+        · rw [hr] at hend ⊢; exact endOK_tail hend
+      obtain ⟨spans, i1, i2, i3⟩ := tagAttrsGo_span rest trail e ((t.readByte.1.unread 1).readAttr true) a1.ok hra.2
+        (fun x hx => hok x (by simp [hx])) htr hendr (by rw [← hLrest]; exact hLhas)
+      -- the span of this attribute
+      have hso : spanOK t ⟨t.rawE, t.rawE + a.key.length, vs, vs + a.val.value.length⟩ a := by
+        have hh : Has t t.rawE (a.key ++ a.vtext ++ (W ++ L)) := by rw [hLT] at h; simpa [List.append_assoc] using h
+        refine spanOK_of a t (W ++ L) vs hh ?_
+        intro hn
+        have := sp2 hn
+        rw [p.1.1] at this
+        simpa using this
+      refine ⟨⟨t.rawE, t.rawE + a.key.length, vs, vs + a.val.value.length⟩ :: spans, ?_, ?_, ?_⟩
+      · rw [i1, sp1, p.1.1]
+        apply Array.ext'
+        simp
+      · refine All2.cons hso ?_
+        exact All2.imp (fun s a h => h.congr (a0.trans a1).buf.symm) i2
+      · rw [i3, sp5]; simp
+
+/-! ### `read_tag` and `next` -/
+
+/-- **the attribute list built by `read_tag`** on a tag of the `Simple` grammar: one span per attribute, in order -/
+theorem readTag_span (nm : Bytes) (as : List SAttr) (trail : Bytes) (e : TagEnd) (t : Tokenizer)
+    (ok : Ok t) (h1 : 1 ≤ t.rawE) (he : t.err = false) (hnm : ∀ b ∈ nm, nameByte b = true)
+    (hok : ∀ a ∈ as, a.ok = true) (htr : ∀ b ∈ trail, isWs b = true) (hend : endOK as trail e = true)
+    (h : Has t t.rawE (nm ++ (attrsOf as ++ trail ++ e.text))) :
+    ∃ spans : List AttrSpan, (readTag t true).attrs = spans.toArray ∧ All2 (spanOK t) spans as ∧
+      (readTag t true).nAttrRet = 0 := by
+  unfold readTag
+  simp only
+  have h0 : Adv t { t with attrs := #[], nAttrRet := 0 } := (Adv.refl ok).congr (by simp [core])
+  have a1 := readTagName_adv _ h0.ok h1
+  unfold readTagName at a1 ⊢
+  have hne : ¬ t.rawE = 0 := by omega
+  simp only [hne, if_false] at a1 ⊢
+  have h00 : Adv t { t with attrs := #[], nAttrRet := 0, dataS := t.rawE - 1 } := (Adv.refl ok).congr (by simp [core])
+  have d := tagNameGo_data { t with attrs := #[], nAttrRet := 0, dataS := t.rawE - 1 } h00.ok
+  -- the three shapes of what follows the name
+  have key : ∃ (k : Nat) (as' : List SAttr) (W : Bytes) (c : Nat),
+      Stops t (tagNameGo { t with attrs := #[], nAttrRet := 0, dataS := t.rawE - 1 }) (nm.length + k) ∧
+      (tagNameGo { t with attrs := #[], nAttrRet := 0, dataS := t.rawE - 1 }).dataE = t.rawE + nm.length ∧
+      (∀ b ∈ W, isWs b = true) ∧ isWs c = false ∧
+      (∃ r, loopText as' trail e = c :: r) ∧ (∀ a ∈ as', a.ok = true) ∧ endOK as' trail e = true ∧ as' = as ∧
+      (attrsOf as ++ trail ++ e.text).length = k + W.length + (loopText as' trail e).length ∧
+      Has t (t.rawE + nm.length + k) (W ++ loopText as' trail e) := by
+    cases as with
+    | nil =>
+      cases trail with
+      | nil =>
+        have hd : (e.text.head?.getD 0 = 47 ∨ e.text.head?.getD 0 = 62) := by cases e <;> simp [TagEnd.text]
+        obtain ⟨dd, rr, hdd⟩ : ∃ dd rr, e.text = dd :: rr := by cases e <;> exact ⟨_, _, rfl⟩
+        have hdd' : dd = 47 ∨ dd = 62 := by rw [hdd] at hd; simpa using hd
+        have hh : Has t t.rawE ((nm ++ [dd]) ++ rr) := by
+          simp only [attrsOf, List.nil_append, List.append_nil, hdd] at h; simpa [List.append_assoc] using h
+        have r := tagNameGo_run_end nm dd { t with attrs := #[], nAttrRet := 0, dataS := t.rawE - 1 }
+          (hh.left.congr rfl) hnm hdd' he
+        refine ⟨0, [], [], dd, r.1, r.2, by simp, by rcases hdd' with rfl | rfl <;> decide, ⟨rr, by simp [loopText, hdd]⟩,
+          by simp, by cases e <;> rfl, rfl, by simp [attrsOf, loopText], ?_⟩
+        have := Has.right (a := nm) (b := e.text) (by simpa [attrsOf] using h)
+        simpa [loopText] using this
+      | cons w tr =>
+        have hw : isWs w = true := htr w (by simp)
+        have hh : Has t t.rawE ((nm ++ [w]) ++ (tr ++ e.text)) := by
+          simp only [attrsOf, List.nil_append] at h; simpa [List.append_assoc] using h
+        have r := tagNameGo_run_ws nm w { t with attrs := #[], nAttrRet := 0, dataS := t.rawE - 1 }
+          (hh.left.congr rfl) hnm hw he
+        obtain ⟨dd, rr, hdd⟩ : ∃ dd rr, e.text = dd :: rr := by cases e <;> exact ⟨_, _, rfl⟩
+        refine ⟨1, [], tr, dd, r.1, r.2, fun b hb => htr b (by simp [hb]), by cases e <;> simp [TagEnd.text] at hdd <;>
+          (obtain ⟨rfl, _⟩ := hdd; decide), ⟨rr, by simp [loopText, hdd]⟩, by simp, by cases e <;> rfl, rfl,
+          by simp [attrsOf, loopText]; omega, ?_⟩
+        have := hh.right
+        simp only [List.length_append, List.length_singleton] at this
+        simpa [loopText, Nat.add_assoc] using this
+    | cons a rest =>
+      obtain ⟨hwne, hws, _⟩ := SAttr.ok_spec (hok a (by simp))
+      cases hwse : a.ws with
+      | nil => exact absurd hwse hwne
+      | cons w wr =>
+        have hw : isWs w = true := hws w (by rw [hwse]; simp)
+        have e1 : attrsOf (a :: rest) ++ trail ++ e.text = (w :: wr) ++ loopText (a :: rest) trail e := by
+          rw [attrsOf_loopText, hwse]
+        have hh : Has t t.rawE ((nm ++ [w]) ++ (wr ++ loopText (a :: rest) trail e)) := by
+          rw [e1] at h; simpa [List.append_assoc] using h
+        have r := tagNameGo_run_ws nm w { t with attrs := #[], nAttrRet := 0, dataS := t.rawE - 1 }
+          (hh.left.congr rfl) hnm hw he
+        obtain ⟨c, rr, hc, hcws, _⟩ := loopText_head_nws (a :: rest) trail e hok
+        refine ⟨1, a :: rest, wr, c, r.1, r.2, fun b hb => hws b (by rw [hwse]; simp [hb]), hcws, ⟨rr, hc⟩, hok, hend, rfl,
+          by rw [e1]; simp; omega, ?_⟩
+        have := hh.right
+        simp only [List.length_append, List.length_singleton] at this
+        simpa [Nat.add_assoc] using this
+  obtain ⟨k, as', W, c, k1, k2, kW, kc, ⟨rr, kl⟩, kok, kend, kas, klen, khas⟩ := key
+  generalize ({ t with attrs := #[], nAttrRet := 0, dataS := t.rawE - 1 } : Tokenizer).tagNameGo = t1 at *
+  have hsw : Has t1 t1.rawE (W ++ [c]) := by
+    have h2 : Has t (t.rawE + nm.length + k) ((W ++ [c]) ++ rr) := by rw [kl] at khas; simpa [List.append_assoc] using khas
+    exact (h2.left.congr a1.buf).at (by rw [k1.1]; omega)
+  have s2 := skipWhiteSpace_run W c t1 hsw kW kc k1.2
+  have a2 := skipWhiteSpace_adv _ a1.ok
+  have f2 := skipWhiteSpace_frame t1
+  generalize t1.skipWhiteSpace = t2 at *
+  have hne2 : ¬ t2.err = true := by rw [s2.2]; exact Bool.false_ne_true
+  rw [if_neg hne2]
+  have hl : Has t2 t2.rawE (loopText as' trail e) := by
+    have := khas.right
+    exact (this.congr (a1.trans a2).buf).at (by rw [s2.1, k1.1]; omega)
+  obtain ⟨spans, r1, r2, r3⟩ := tagAttrsGo_span as' trail e t2 a2.ok s2.2 kok htr kend hl
+  have hat : t2.attrs = #[] := by rw [f2.2.2.1, d.2.2.2.1]
+  have hnr : t2.nAttrRet = 0 := by rw [f2.2.2.2.1, d.2.2.2.2]
+  refine ⟨spans, by rw [r1, hat]; simp, ?_, by rw [r3, hnr]⟩
+  rw [← kas]
+  exact All2.imp (fun s a h => h.congr (a1.trans a2).buf.symm) r2
+
+/-- **closed form of the attribute list of a start tag** (same hypotheses as `start_tag_closed_form2`): after `next`, the saved
+attribute spans are — in order — exactly the keys and the values (without quotes, `[]` for a bare key) of the attributes, and
+`number_attribute_returned = 0` -/
+theorem attrs_closed_form (t : Tokenizer) (disp : Bytes) (as : List SAttr) (trail : Bytes) (e : TagEnd)
+    (ok : Ok t) (he : t.err = false) (htag : t.rawTag = []) (hn : nameOK2 disp = true)
+    (hok : ∀ a ∈ as, a.ok = true) (htr : ∀ b ∈ trail, isWs b = true) (hend : endOK as trail e = true)
+    (h : Has t t.rawE ([60] ++ disp ++ attrsOf as ++ trail ++ e.text)) :
+    ∃ spans : List AttrSpan, (next t).attrs = spans.toArray ∧ All2 (spanOK t) spans as ∧ (next t).nAttrRet = 0 := by
+  cases disp with
+  | nil => simp [nameOK2] at hn
+  | cons c nm =>
+    simp only [nameOK2, Bool.and_eq_true, List.all_eq_true] at hn
+    obtain ⟨hc, hnm⟩ := hn
+    have hx : [60] ++ (c :: nm) ++ attrsOf as ++ trail ++ e.text = 60 :: c :: (nm ++ (attrsOf as ++ trail ++ e.text)) := by
+      simp [List.append_assoc]
+    rw [hx] at h
+    obtain ⟨hnx, o1, o2, o3, o4, o5, o6, o7, o8, o9⟩ := next_dispatch t c ok he htag
+      (fun i hi => by have := h i (by simp at hi ⊢; omega); rw [this]; match i, hi with | 0, _ => rfl | 1, _ => rfl)
+      (by simp [isOpener, hc])
+    generalize opened t = S at *
+    have hS : Has S S.rawE (nm ++ (attrsOf as ++ trail ++ e.text)) :=
+      ((h.tail.tail).congr o4).at (by rw [o1])
+    obtain ⟨spans, r1, r2, r3⟩ := readTag_span nm as trail e S o7 (by omega) o3 hnm hok htr hend hS
+    have kp := readStartTag_keep S
+    rw [hnx]
+    unfold dispatchTag
+    simp only [htmlTagOpenLen]
+    rw [if_neg (by omega), if_neg (by rw [o2, o1]; omega), if_pos hc]
+    refine ⟨spans, ?_, All2.imp (fun s a h => h.congr o4.symm) r2, ?_⟩
+    · show (readStartTag S).1.attrs = _; rw [kp.1, r1]
+    · show (readStartTag S).1.nAttrRet = _; rw [kp.2, r3]
+
+/-- the bytes of a span that holds a known text -/
+theorem extract_of_has {t : Tokenizer} {p : Nat} {l : Bytes} (h : Has t p l) : (t.buf.extract p (p + l.length)).toList = l := by
+  rcases has_size h with hs | rfl
+  · exact has_extract h hs
+  · simp
+
+theorem spans_texts (t : Tokenizer) : ∀ {spans : List AttrSpan} {as : List SAttr}, All2 (spanOK t) spans as →
+    spans.map (fun s => ((t.buf.extract s.ks s.ke).toList, (t.buf.extract s.vs s.ve).toList)) =
+      as.map (fun a => (a.key, a.val.value))
+  | _, _, .nil => rfl
+  | _, _, .cons hso rs => by
+    simp only [List.map_cons, spans_texts t rs]
+    obtain ⟨k1, k2, v1, v2⟩ := hso
+    rw [k2, v2, extract_of_has k1, extract_of_has v1]
+
+/-- … as texts: the keys and the values (what `tag_attr()` slices; it then lower-cases the key) -/
+theorem attrs_texts (t : Tokenizer) (disp : Bytes) (as : List SAttr) (trail : Bytes) (e : TagEnd)
+    (ok : Ok t) (he : t.err = false) (htag : t.rawTag = []) (hn : nameOK2 disp = true)
+    (hok : ∀ a ∈ as, a.ok = true) (htr : ∀ b ∈ trail, isWs b = true) (hend : endOK as trail e = true)
+    (h : Has t t.rawE ([60] ++ disp ++ attrsOf as ++ trail ++ e.text)) :
+    (next t).attrs.toList.map (fun s => ((t.buf.extract s.ks s.ke).toList, (t.buf.extract s.vs s.ve).toList)) =
+      as.map (fun a => (a.key, a.val.value)) ∧ (next t).nAttrRet = 0 := by
+  obtain ⟨spans, r1, r2, r3⟩ := attrs_closed_form t disp as trail e ok he htag hn hok htr hend h
+  rw [r1]
+  exact ⟨spans_texts t r2, r3⟩
 
 end Tokenizer
 end Rio.Html
